@@ -451,3 +451,118 @@ Section NoLock.
     exact (expect_sound_std sro KeyFull HkmF wb Hwb R0 tr j vs t).
   Qed.
 End NoLock.
+
+(* ---------------- a commit that fails midway ---------------- *)
+Lemma facts_spec_orders_immutable : spec_orders_immutable = true.
+Proof. reflexivity. Qed.
+
+Section Commit.
+  Variable sro : N -> list N.
+  Notation LPl := (LPs (std_wb Local)).
+  Notation run := (exec sro KeyFull LPl RPs).
+  Notation InvW := (Inv sro (std_wb Local)).
+
+  Lemma commit_one st ups :
+    InvW st -> quiet st ->
+    let st' := run [SpawnRegister ups; Step (ntid st); Step (ntid st)] st in
+    InvW st' /\ quiet st' /\ R st' = rapply ups (R st) /\ ntid st' = S (ntid st).
+  Proof.
+    intros I Hq st'.
+    assert (I' : InvW st') by (apply (inv_run sro KeyFull HkmF _ HwbL); exact I).
+    split; [exact I'|].
+    unfold st', exec. simpl. rewrite upd_same. unfold step_thread. simpl.
+    rewrite upd_same. simpl.
+    split; [|split; reflexivity].
+    intros j t Hj. simpl in Hj.
+    destruct (Nat.eq_dec j (ntid st)) as [->|Hne].
+    - rewrite upd_same in Hj. inversion Hj. reflexivity.
+    - rewrite !upd_other in Hj by auto. apply (Hq _ _ Hj).
+  Qed.
+
+  Lemma commit_all acts : forall st,
+    InvW st -> quiet st ->
+    let st' := run (commit_trace (ntid st) acts) st in
+    InvW st' /\ quiet st' /\ R st' = commit_R acts (R st).
+  Proof.
+    induction acts as [|ups r IH]; intros st I Hq; [simpl; auto|].
+    destruct (commit_one st ups I Hq) as (I1 & Q1 & R1 & N1).
+    cbv zeta.
+    change (run (commit_trace (ntid st) (ups :: r)) st)
+      with (run (commit_trace (S (ntid st)) r) (run [SpawnRegister ups; Step (ntid st); Step (ntid st)] st)).
+    set (s1 := run [SpawnRegister ups; Step (ntid st); Step (ntid st)] st) in *.
+    rewrite <- N1.
+    destruct (IH s1 I1 Q1) as (I2 & Q2 & R2).
+    split; [exact I2|]. split; [exact Q2|]. rewrite R2, R1. reflexivity.
+  Qed.
+End Commit.
+
+(* after any history, a commit whose view actions [acts] were executed before another action of the commit
+   raised (the remaining actions never ran): every lookup that starts afterwards sees exactly the registrations
+   of the executed actions, warm cache or not *)
+Lemma partial_commit_fresh : forall sro R0 hs acts k tr2,
+  reinit_idle sro KeyFull lookup_prog register_prog init_prog hs (init R0) = true ->
+  let st0 := hexec sro KeyFull lookup_prog register_prog init_prog hs (init R0) in
+  let st1 := exec sro KeyFull lookup_prog register_prog (commit_trace (ntid st0) acts) st0 in
+  let st2 := exec sro KeyFull lookup_prog register_prog (SpawnLookup k :: tr2) st1 in
+  quietb st0 = true ->
+  reg_free sro KeyFull lookup_prog register_prog st1 (SpawnLookup k :: tr2) = true ->
+  exists t, threads st2 (ntid st1) = Some t /\ tkind t = KLookup /\ tkey t = k /\
+            (cont t = [] -> tres t = Some (lookup_all sro (commit_R acts (R st0)) k)).
+Proof.
+  rewrite facts_lookup_prog, facts_register_prog.
+  intros sro R0 hs acts k tr2 Hid st0 st1 st2 Hqb Hf.
+  assert (I0 : Inv sro (std_wb Local) st0).
+  { apply (inv_hexec sro KeyFull HkmF _ HwbL init_prog facts_init_prog); [apply inv_init|exact Hid]. }
+  assert (Q0 : quiet st0) by (apply (quietb_quiet sro (std_wb Local)); auto).
+  destruct (commit_all sro acts st0 I0 Q0) as (I1 & Q1 & R1).
+  fold st1 in I1, Q1, R1.
+  assert (Hqb1 : quietb st1 = true) by (apply (quietb_quiet sro (std_wb Local)); auto).
+  destruct (lookup_fresh_from sro KeyFull HkmF _ HwbL st1 k tr2 I1 Hqb1 Hf) as (t & A & B & C & D).
+  exists t. repeat split; auto. intros Hc. rewrite (D Hc). apply f_equal.
+  apply (f_equal (fun r => lookup_all sro r k)). exact R1.
+Qed.
+
+Example partial_commit_nonvacuous :
+  let acts := [[(sA, Some 2%N)]] in
+  let st0 := exec sro1 KeyFull lookup_prog register_prog (SpawnLookup k1 :: steps 0 40) (init R1) in
+  let st1 := exec sro1 KeyFull lookup_prog register_prog (commit_trace (ntid st0) acts) st0 in
+  quietb st0 = true /\ dget (heap st0 (cur st0)) k1 = Some [1%N] /\
+  reg_free sro1 KeyFull lookup_prog register_prog st1 (SpawnLookup k1 :: steps 2 40) = true /\
+  lookup_all sro1 (commit_R acts (R st0)) k1 = [2%N].
+Proof. vm_compute. repeat split; reflexivity. Qed.
+
+(* ---------------- the resolution orders must stay fixed ---------------- *)
+Definition sroA (i : N) : list N := if N.eqb i 2 then [2; 0]%N else sro1 i.
+Definition sroA' (i : N) : list N := if N.eqb i 2 then [2; 1; 0]%N else sro1 i.   (* the route interface now extends IRequest *)
+Definition kR : key := (0, 2, 11, 0)%N.
+Definition R_route : reg := [((0, 2, 11, 0, 0)%N, Some 5%N); (sA, Some 1%N)].
+
+Lemma sro_change_refuted : ~ sro_change_claim (std_lookup Local true) (std_register Swap).
+Proof.
+  intros H. pose proof (H sroA sroA' R_route (SpawnLookup kR :: steps 0 40) kR (steps 1 40)) as H. cbv zeta in H.
+  match type of H with
+  | ?q -> ?f -> _ =>
+      assert (Q : q) by (vm_compute; reflexivity);
+      assert (F : f) by (vm_compute; reflexivity);
+      specialize (H Q F)
+  end.
+  destruct H as (t & A & _ & _ & D).
+  vm_compute in A. inversion A. subst t. vm_compute in D. specialize (D eq_refl). discriminate D.
+Qed.
+
+(* ---------------- exception views of a re-dispatched request ---------------- *)
+Lemma redispatch_lookup_fresh : forall sro R0 hs cl cx nm ms m tr2,
+  reinit_idle sro KeyFull lookup_prog register_prog init_prog hs (init R0) = true ->
+  let st1 := hexec sro KeyFull lookup_prog register_prog init_prog hs (init R0) in
+  let k := (cl, lookup_iface cl (dispatch_last router_resets_iface router_sets_route_iface (ms ++ [m])), cx, nm) in
+  let st2 := exec sro KeyFull lookup_prog register_prog (SpawnLookup k :: tr2) st1 in
+  quietb st1 = true ->
+  reg_free sro KeyFull lookup_prog register_prog st1 (SpawnLookup k :: tr2) = true ->
+  exists t, threads st2 (ntid st1) = Some t /\ tkind t = KLookup /\
+            (cont t = [] -> tres t = Some (lookup_all sro (R st1) (cl, lookup_iface cl (fresh_iface m), cx, nm))).
+Proof.
+  intros sro R0 hs cl cx nm ms m tr2 Hid st1 k st2 Hq Hf.
+  destruct (hist_lookup_fresh sro R0 hs k tr2 Hid Hq Hf) as (t & A & B & C & D).
+  exists t. split; [exact A|]. split; [exact B|]. intros Hc. rewrite (D Hc). unfold k.
+  rewrite dispatch_last_history_free. reflexivity.
+Qed.
